@@ -512,6 +512,16 @@ def fam_C08(seed, n):
             if r.random() < 0.7:
                 sc.add("h login", r.choice(users), r.choice([0, 0, 1]))
             sc.add("end")
+        if r.random() < 0.15:
+            # a client that still carries the cookie of a session that no longer exists logs in: the response then holds a
+            # deletion cookie, the cookie of the new session and the cookie of the id the login switched to - in that order
+            c = r.randrange(ns, len(CLIENTS))
+            req(sc, c, spec="val:g%d" % r.choice([40, 41, 57]), create=1)
+            sc.add("h login", r.choice(users), r.choice([0, 1]))
+            sc.add("end")
+            req(sc, c)
+            sc.add("h user")
+            sc.add("end")
         switched = False
         for _ in range(r.randint(3, 10)):
             x = r.random()
